@@ -1178,7 +1178,12 @@ func (x *Placeholder) Set(val Native) error {
 		if err != nil {
 			return fmt.Errorf("Placeholder.Set: %w", err)
 		}
-		return nil
+		if len(x.pos) == 0 {
+			return nil
+		}
+		// The placeholder has also been written as blanks into the file
+		// itself (it was formatted both into the file and into a buffer,
+		// e.g. the body of an object stream): these are filled in below.
 	}
 
 	if x.value != nil {
